@@ -3,8 +3,10 @@
  R1 the unexpected-unit terms S_U(results_e) are present, grouped by the aggregate keys, in counted votes, prediction and both
     bounds at every non-classification level (nonparametric and gaussian estimators);
  R2 key availability: every key by which unexpected units are grouped is recovered for them (all office classes x request lists);
+    the id parsers doing that are total: no index >= 1 into the split id without a length guard (R2.parse-total);
  R3 bootstrap: S_U(results_margin) and S_U(results_weights) enter numerator and denominator of every aggregate quantity
-    (prediction, the four bootstrap totals and the recomputed totals of the interval function);
+    (prediction, the four bootstrap totals and the recomputed totals of the interval function); every quotient by a group turnout
+    total maps 0/0 to 0 (R3.zero-turnout: a new group can have zero two-party votes);
  R4 design independence: in compute_bootstrap_errors nothing that reaches a fit or a random draw depends on unexpected_units -
     neither through their row values nor through the category universe (columns of get_dummies over all units);
  R5 belief agreement: county_classification is unknown for unexpected units (BaseElectionModel excludes them at that level);
